@@ -173,18 +173,10 @@ theorem rooms_uses (sh : Shape) (lh lw : Int) (ys xs : List Int) (d : DrawSt)
     (hv : 4 ≤ sh.h ∧ 3 ≤ sh.w) (sy : SplitsOK sh.h ys) (sx : SplitsOK sh.w xs) (s : State) (d' : DrawSt)
     (he : resetRooms sh lh lw ys xs d = .ok (s, d')) :
     Uses [.wall, .floor, .exit] [] sh.h.toNat sh.w.toNat s := by
-  by_cases hbad : lh < 1 ∨ lw < 1 ∨ hasDup ys = true ∨ hasDup xs = true
-  · rw [C13_rooms_rejects sh lh lw ys xs d hbad] at he; cases he
+  by_cases hbad : lh < 1 ∨ lw < 1
+  · rw [C13_rooms_rejects sh lh lw ys xs d (hbad.elim Or.inl (fun h => Or.inr (Or.inl h)))] at he; cases he
   · have hl : 1 ≤ lh ∧ 1 ≤ lw := by omega
-    have dy : hasDup ys = false := by
-      cases h : hasDup ys with
-      | false => rfl
-      | true => exact absurd (Or.inr (Or.inr (Or.inl h))) hbad
-    have dx : hasDup xs = false := by
-      cases h : hasDup xs with
-      | false => rfl
-      | true => exact absurd (Or.inr (Or.inr (Or.inr h))) hbad
-    obtain ⟨s1, d1, ep, e1, wf, gh, gw, _, hk, _, _, hpos, _, hheld⟩ := C13_rooms_wf sh lh lw ys xs d hv hl sy sx dy dx
+    obtain ⟨s1, d1, ep, e1, wf, gh, gw, _, hk, _, _, hpos, _, hheld⟩ := C13_rooms_wf sh lh lw ys xs d hv hl sy sx
     rw [e1] at he
     injection he with he; injection he with hs _; subst hs
     refine ⟨wf, gh, gw, ?_, hpos, hheld⟩
@@ -217,20 +209,12 @@ theorem memoryRooms_uses (sh : Shape) (lh lw : Int) (ys xs : List Int) (colors :
     (he : resetMemoryRooms sh lh lw ys xs colors nb ne d = .ok (s, d')) :
     Uses [.wall, .floor, .exit, .beacon] colors sh.h.toNat sh.w.toNat s := by
   by_cases hp : MemRoomsParams colors nb ne
-  · by_cases hbad : lh < 1 ∨ lw < 1 ∨ hasDup ys = true ∨ hasDup xs = true
-    · have hg := roomsGrid_rejects sh lh lw ys xs d hbad
+  · by_cases hbad : lh < 1 ∨ lw < 1
+    · have hg := roomsGrid_rejects sh lh lw ys xs d (hbad.elim Or.inl (fun h => Or.inr (Or.inl h)))
       obtain ⟨e', he', _⟩ := C13_memory_rooms_rejects_grid sh lh lw ys xs colors nb ne d _ hg
       rw [he'] at he; cases he
     · have hl : 1 ≤ lh ∧ 1 ≤ lw := by omega
-      have dy : hasDup ys = false := by
-        cases h : hasDup ys with
-        | false => rfl
-        | true => exact absurd (Or.inr (Or.inr (Or.inl h))) hbad
-      have dx : hasDup xs = false := by
-        cases h : hasDup xs with
-        | false => rfl
-        | true => exact absurd (Or.inr (Or.inr (Or.inr h))) hbad
-      obtain ⟨g, d1, eg, rg, hok, hrej⟩ := C13_memory_rooms_summary sh lh lw ys xs colors nb ne d hh hw hl sy sx dy dx hp hcn
+      obtain ⟨g, d1, eg, rg, hok, hrej⟩ := C13_memory_rooms_summary sh lh lw ys xs colors nb ne d hh hw hl sy sx hp hcn
       by_cases hfit : 1 + nb.toNat + ne.toNat ≤ (floorPositions g).length ∧ ne.toNat ≤ colors.length
       · obtain ⟨s1, d1', exits, good, e1, wf, gh, gw, hpos, _, hheld, _, _, _, _, hcells, _, hgoodc, hexc⟩ := hok hfit
         rw [e1] at he
